@@ -161,6 +161,14 @@ CHECKS = {
         "'More rows than the view' is judged at the width actually handed to the content (a Text can be taller only at full width: a bar beside fitting content is accepted there). The handled-event clause is skipped when the content shows a cursor. Exceptions from inside listbox.py at a valid size are out of scope (C07).",
         "DESIGN.md §3 C20, §8",
     ),
+    "C09": (
+        "exploration",
+        "runtime monitor with spy leaves: every leaf fills its canvas with a glyph unique to the instance and logs every mouse_event / move_cursor_to_coords call, a wrapper on the render-size hook records the size each widget got; for every cell on which a leaf is drawn an event is injected at the root and the recipient and its coordinates are compared with what the canvas shows; cursor coordinates without rendering are compared with the focused render",
+        "Generated trees (depth <= 3 quick / 5 thorough) of Pile, Columns, Frame, Filler, Padding, Overlay, BoxAdapter, LineBox, AttrMap, GridFlow, ListBox (and ScrollBar / Scrollable) around spies and real Edit / SelectableIcon / Button / CheckBox leaves, at sizes where the fit precondition holds by observation; "
+        "clauses c1 get_cursor_coords == render(focus).cursor for every container / decoration, c2 non-focus-changing events at every leaf cell reach exactly that leaf with translated coordinates (c2b: button-1 presses on fresh trees), c3 move_cursor_to_coords succeeds iff the leaf accepts the translated cell and the cursor row is the requested row.",
+        "Cells where no leaf is drawn are not judged. Overlay's bottom widget is an inert backdrop by documented design (an event reaching no leaf there is counted, not judged). The size argument handed to a leaf is counted, not judged. Containers above Scrollable/ScrollBar are skipped for c1 (no get_cursor_coords).",
+        "DESIGN.md §3 C09, §8",
+    ),
 }
 
 NA_REASON = "check not built yet in this round (see DESIGN.md §6 build order); no claim is made"
